@@ -1,5 +1,6 @@
 import PintModel.Model.Flight
 import PintModel.Gen.Keys
+import PintModel.Model.Cache
 /-!
 # C14 — identical questions reach a Prometheus server once; concurrency stays bounded
 
@@ -607,5 +608,54 @@ theorem range_outer_lock_not_determined_by_slice :
   decide
 
 end Keys
+
+/-! ## the cache with its clock: an answer lives for its cache lifetime -/
+section CacheLife
+open Pint.Cache
+
+/-- a sweep keeps every entry that is neither expired nor stale -/
+theorem gc_keeps_live (c : Cache) (e : Entry) (he : e ∈ c.entries) (hd : dead c e = false) : e ∈ (sweep c).entries := by
+  simp [sweep, he, hd]
+
+/-- a sweep removes only entries that are expired or stale -/
+theorem gc_removes_only_dead (c : Cache) (e : Entry) (he : e ∈ c.entries) (hn : e ∉ (sweep c).entries) : dead c e = true := by
+  cases h : dead c e with
+  | true => rfl
+  | false => exact absurd (gc_keeps_live c e he h) hn
+
+theorem find_put_self (c : Cache) (k v ttl : Nat) :
+    find (put c k v ttl) k = some { key := k, val := v, expires := if ttl > 0 then some (c.now + ttl) else none, lastGet := c.now } := by
+  simp [find, put]
+
+/-- **cache lifetime**: an answer stored with a positive ttl is still handed out after any number of sweeps, as long as
+no more than its ttl and less than `maxStale` has passed since it was stored — whatever else is in the cache -/
+theorem stored_answer_survives_sweep (c : Cache) (k v ttl d : Nat) (hd : d ≤ ttl) (hs : d < c.maxStale) :
+    (look (sweep (advance (put c k v ttl) d)) k).2 = some v := by
+  have hfind := find_put_self c k v ttl
+  have hmem : ({ key := k, val := v, expires := if ttl > 0 then some (c.now + ttl) else none, lastGet := c.now } : Entry) ∈
+      (advance (put c k v ttl) d).entries := by simp [advance, put]
+  have hlive : dead (advance (put c k v ttl) d)
+      { key := k, val := v, expires := if ttl > 0 then some (c.now + ttl) else none, lastGet := c.now } = false := by
+    simp only [dead, advance, put]
+    by_cases ht : ttl > 0
+    · simp [ht]; omega
+    · simp [ht]; omega
+  have hkeep := gc_keeps_live _ _ hmem hlive
+  -- it is the first entry with key k, before and after the sweep
+  have hfirst : find (sweep (advance (put c k v ttl) d)) k =
+      some { key := k, val := v, expires := if ttl > 0 then some (c.now + ttl) else none, lastGet := c.now } := by
+    simp only [find, sweep, advance, put, List.filter_cons]
+    have : dead { now := c.now + d, maxStale := c.maxStale, entries := { key := k, val := v, expires := if ttl > 0 then some (c.now + ttl) else none, lastGet := c.now } :: List.filter (fun e => e.key != k) c.entries, evictions := c.evictions }
+        { key := k, val := v, expires := if ttl > 0 then some (c.now + ttl) else none, lastGet := c.now } = false := hlive
+    simp [this]
+  simp [look, hfirst]
+
+/-- non-vacuity, and the two ways an entry dies -/
+example : (look (sweep (advance (put (empty 100 0) 7 42 50) 50)) 7).2 = some 42 := by decide
+example : (look (sweep (advance (put (empty 100 0) 7 42 50) 51)) 7).2 = none := by decide
+example : (look (sweep (advance (put (empty 100 0) 7 42 0) 100)) 7).2 = none := by decide
+example : (look (sweep (advance (look (advance (put (empty 100 0) 7 42 0) 99) 7).1 99)) 7).2 = some 42 := by decide
+
+end CacheLife
 
 end Pint.Props.C14
